@@ -239,3 +239,9 @@ def c11(work, tier, seed, replay):
 def c09(work, tier, seed, replay):
     import fam_gateway as fg
     return fg.c09(work, tier, seed)
+
+
+@check("C10")
+def c10(work, tier, seed, replay):
+    import fam_gateway as fg
+    return fg.c10(work, tier, seed)
